@@ -480,3 +480,53 @@ def rounding_inexact_doubles(i: int, p: int) -> bool:
     got_e = _one(T['rhe2'].evaluate(XPathContext(item=1, variables={'a': x, 'p': p})))
     got_u = _one(T['round2'].evaluate(XPathContext(item=1, variables={'a': x, 'p': p})))
     return isinstance(got_e, float) and isinstance(got_u, float) and got_e == float(half_even) and got_u == float(half_up)
+
+
+# --- added after round-3 seeded changes: result TYPE of + - * div for every ordered pair of numeric carriers (F&O type promotion) ----------
+
+from elementpath.datatypes import Float as _XsFloat  # noqa: E402
+_RANK = {'int': 0, 'dec': 1, 'flt': 2, 'dbl': 3}
+_KINDS = ('int', 'dec', 'flt', 'dbl')
+
+
+def _carry(kind, k):
+    if kind == 'int':
+        return k
+    if kind == 'dec':
+        return Decimal(k) / 4
+    if kind == 'flt':
+        return _XsFloat(k / 4)
+    return k / 4
+
+
+@ob(budget=400, bound='operator in {+,-,*,div} x left carrier x right carrier over {integer, decimal, xs:float, xs:double} (all 64 cases) x '
+                      'left value k1/4 with k1 in {-3, 2, 5} (integers: k1) x right value k2/4 with k2 in {-1, 2} - every index chosen by the '
+                      'solver, values concrete on each path (CrossHair models floats as reals): the result type is the promoted type (double > '
+                      'float > decimal > integer; integer div integer is decimal) and the value is exact',
+    funcs=['elementpath/xpath_tokens/base.py:get_operands', O1 + ':+ - * div'])
+def result_type_promotion(oi: int, ai: int, bi: int, i1: int, i2: int) -> bool:
+    """
+    pre: 0 <= oi <= 3 and 0 <= ai <= 3 and 0 <= bi <= 3 and 0 <= i1 <= 2 and 0 <= i2 <= 1
+    post: _
+    """
+    op = ('add', 'sub', 'mul', 'div')[[i for i in range(4) if i == oi][0]]
+    ka, kb = _KINDS[[i for i in range(4) if i == ai][0]], _KINDS[[i for i in range(4) if i == bi][0]]
+    k1 = (-3, 2, 5)[[i for i in range(3) if i == i1][0]]
+    k2 = (-1, 2)[[i for i in range(2) if i == i2][0]]
+    if ka == 'int':
+        k1 = k1 * 4
+    if kb == 'int':
+        k2 = k2 * 4
+    a, b = _carry(ka, k1 // 4 if ka == 'int' else k1), _carry(kb, k2 // 4 if kb == 'int' else k2)
+    r = _ev(op, a=a, b=b)
+    rank = max(_RANK[ka], _RANK[kb])
+    if rank == 0 and op == 'div':
+        rank = 1
+    want_type = (int, Decimal, _XsFloat, float)[rank]
+    if type(r) is not want_type and not (rank == 0 and isinstance(r, int) and not isinstance(r, bool)):
+        return False
+    x, y = Fraction(k1, 4), Fraction(k2, 4)
+    exact = {'add': x + y, 'sub': x - y, 'mul': x * y, 'div': x / y}[op]
+    if op == 'div' and exact.denominator & (exact.denominator - 1):
+        return True          # not exact in binary: only the type is checked
+    return Fraction(r) == exact
